@@ -3,14 +3,14 @@
 #   fresh scratch worktree of /repo HEAD at /tmp/mut/<Cxx>  ->  apply patch  ->  build  ->  pinned suite (must pass)  ->  demo (must FAIL)
 #   -> revert  ->  rebuild  ->  demo (must PASS)  ->  copy to /verif/seeded/<Cxx>-<mN>/ with the verification record.
 import json, os, shutil, subprocess, sys, time
-OUT = "/tmp/mut/out"
+BASE = os.environ.get("MUTBASE", "/tmp/mut"); OUT = BASE + "/out"; PFX = os.environ.get("MUTPREFIX", "")	# round 2: MUTBASE=/tmp/mut2 MUTPREFIX=r2
 def sh(cmd, cwd=None, timeout=1800):
     r = subprocess.run(cmd, shell=True, cwd=cwd, capture_output=True, text=True, timeout=timeout)
     return r.returncode, (r.stdout + r.stderr)[-1500:]
 def build(wt):
     return sh("cmake -G Ninja -B _build -DCMAKE_BUILD_TYPE=RelWithDebInfo >/dev/null && cmake --build _build 2>&1 | tail -3", cwd=wt)
 def one(prop, m):
-    src = f"{OUT}/{prop}/{m}"; wt = f"/tmp/mut/{prop}"
+    src = f"{OUT}/{prop}/{m}"; wt = f"{BASE}/{prop}"
     meta = json.load(open(f"{src}/meta.json"))
     rec = {"id": f"{prop}-{m}", "property": prop}
     sh(f"git -C /repo worktree remove --force {wt}; rm -rf {wt}; git -C /repo worktree prune; git -C /repo worktree add -q --detach {wt} HEAD")
@@ -20,7 +20,7 @@ def one(prop, m):
         rec["applied_with"] = "patch -F3"
         if rc:
             rec["status"] = "does-not-apply-to-current-tree"; rec["detail"] = out[-400:]; return rec
-    sh("git diff > /tmp/mut/%s-%s.applied.diff" % (prop, m), cwd=wt)
+    sh("git diff > %s/%s-%s.applied.diff" % (BASE, prop, m), cwd=wt)
     rc, out = build(wt)
     if rc: rec["status"] = "does-not-build"; rec["detail"] = out; return rec
     rc, out = sh("ctest --test-dir _build -j8 --timeout 900 2>&1 | tail -4", cwd=wt)
@@ -33,8 +33,8 @@ def one(prop, m):
     rec["status"] = "confirmed" if ok else "NOT-confirmed"
     if not ok: rec["detail"] = (o1[-300:] + " || " + o0[-300:])
     if ok:
-        dst = f"/verif/seeded/{prop}-{m}"; os.makedirs(dst, exist_ok=True)
-        shutil.copy(f"/tmp/mut/{prop}-{m}.applied.diff", f"{dst}/patch.diff")
+        dst = f"/verif/seeded/{prop}-{PFX}{m}"; os.makedirs(dst, exist_ok=True)
+        shutil.copy(f"{BASE}/{prop}-{m}.applied.diff", f"{dst}/patch.diff")
         for f in os.listdir(src):
             if f.startswith("demo") or f.endswith(".c") or f.endswith(".py") or f.endswith(".sh"):
                 if os.path.isfile(f"{src}/{f}") and os.path.getsize(f"{src}/{f}") < 200000 and not os.access(f"{src}/{f}", os.X_OK) or f.endswith((".c", ".py", ".sh")):
@@ -55,5 +55,5 @@ if __name__ == "__main__":
             try: r = one(p, m)
             except Exception as e: r = {"id": f"{p}-{m}", "status": "error", "detail": str(e)[:300]}
             print(json.dumps(r), flush=True); res.append(r)
-        sh(f"git -C /repo worktree remove --force /tmp/mut/{p}; git -C /repo worktree prune")
-    json.dump(res, open("/tmp/mut/verify_results.json", "w"), indent=1)
+        sh(f"git -C /repo worktree remove --force {BASE}/{p}; git -C /repo worktree prune")
+    json.dump(res, open(BASE + "/verify_results.json", "w"), indent=1)
